@@ -538,6 +538,32 @@ class Prop(SeqProp):
                         mix = battery()
                 except Exception as e:  # noqa
                     mix = f"the battery itself failed: {err_name(e)}: {e}"
+            if r != "bad-op" and mix is None and len(out) in (3, 6) and op != "init":
+                # a bulk operation fed by a source that raises in the middle, with values the container already holds: whatever was
+                # taken before the failure, the content is what it was (and still sorted, without duplicates)
+                class _SourceFailed(Exception):
+                    pass
+
+                def _failing(items):
+                    for it_ in items:
+                        yield it_
+                    raise _SourceFailed()
+
+                try:
+                    if kind == "sset":
+                        have = list(obj)
+                        try:
+                            obj |= _failing(have[::-1] + have[:1])
+                        except _SourceFailed:
+                            pass
+                    else:
+                        have = list(obj.items())
+                        try:
+                            obj.update(_failing(have[::-1] + have[:1]))
+                        except _SourceFailed:
+                            pass
+                except Exception as e:  # noqa
+                    mix = f"a bulk update from a source that raises in the middle raised {err_name(e)} instead of the source's exception"
             donor_err = None
             if op != "init" and donor[0] is not None and drng.random() < 0.5:
                 try:
